@@ -20,24 +20,26 @@ const repoPkgPath = "github.com/ochinchina/sipproxy"
 
 // World is the resolved program every rule works on.
 type World struct {
-	Dir   string
-	Fset  *token.FileSet
-	Pkg   *packages.Package
-	Prog  *ssa.Program
-	Main  *ssa.Package
-	CG    *callgraph.Graph
-	Funcs map[string]*ssa.Function // by RelString relative to main, source functions only
-	All   []*ssa.Function          // source functions of the main package, sorted by name
-	Files int
-	Inlined []string // new single-call-site helpers inlined into their callers before the analysis
-	Renamed []string // baseline function -> its new name, recognised by receiver and signature
-	alias   map[*ssa.Function]string
+	Dir      string
+	Fset     *token.FileSet
+	Pkg      *packages.Package
+	Prog     *ssa.Program
+	Main     *ssa.Package
+	CG       *callgraph.Graph
+	Funcs    map[string]*ssa.Function // by RelString relative to main, source functions only
+	All      []*ssa.Function          // source functions of the main package, sorted by name
+	Files    int
+	Excluded []string // .go files excluded from the default build configuration by a build constraint (not analysed)
+	Inlined  []string // new single-call-site helpers inlined into their callers before the analysis
+	Renamed  []string // baseline function -> its new name, recognised by receiver and signature
+	alias    map[*ssa.Function]string
 
 	flow      *flowGraph // lazily built
 	writerSet map[*ssa.Function]bool
 	effects   map[*ssa.Function]map[string]bool
-	thr       *threads // lazily built
-	strKeep   edgeKeep // evalStr: phis of strFn are resolved under this edge filter when set
+	thr       *threads             // lazily built
+	strKeep   edgeKeep             // evalStr: phis of strFn are resolved under this edge filter when set
+	sentinels map[*ssa.Global]bool // package-level error variables that only ever hold newly built errors
 	strFn     *ssa.Function
 }
 
@@ -89,9 +91,14 @@ func load(dir string, inline bool) (*World, error) {
 	if len(errs) > 0 {
 		return nil, fmt.Errorf("load: %d type/list errors, first: %s", len(errs), errs[0])
 	}
+	var excluded []string
 	for _, f := range root.IgnoredFiles {
 		if strings.HasSuffix(f, ".go") && !strings.HasSuffix(f, "_test.go") {
-			return nil, fmt.Errorf("load: %s is excluded by a build constraint: the analysis would cover one build configuration only", f)
+			// not part of the default build (the one the test suite and the shipped binary use): recorded, not analysed
+			if i := strings.LastIndex(f, "/"); i >= 0 {
+				f = f[i+1:]
+			}
+			excluded = append(excluded, f)
 		}
 	}
 	if len(root.GoFiles) < 20 {
@@ -99,7 +106,7 @@ func load(dir string, inline bool) (*World, error) {
 	}
 	prog, spkgs := ssautil.AllPackages(pkgs, ssa.InstantiateGenerics)
 	prog.Build()
-	w := &World{Dir: dir, Fset: root.Fset, Pkg: root, Prog: prog, Main: spkgs[0], Files: len(root.GoFiles)}
+	w := &World{Dir: dir, Fset: root.Fset, Pkg: root, Prog: prog, Main: spkgs[0], Files: len(root.GoFiles), Excluded: excluded}
 	if w.Main == nil {
 		return nil, fmt.Errorf("load: no SSA for root package")
 	}
